@@ -303,6 +303,7 @@ func checkC06(c *Check) {
 	}
 	errorDiscipline(c)
 	downloadRules(c, "O-C06.3")
+	fetcherDeltaRules(c)
 	checkNoSharedState(c, "O-C06.4")
 }
 
@@ -440,4 +441,25 @@ func exprString(e ast.Expr) string {
 		return exprString(x.Fun) + "(..)"
 	}
 	return fmt.Sprintf("%T", e)
+}
+
+// fetcherDeltaRules re-evaluates the delta-CRL rules of the fetcher (O-C18.4)
+// under C06: a fault (also a cancellation) while downloading an advertised
+// delta CRL must surface as an error, never as a bundle without the delta - the
+// checker would then read the stale base CRL as the whole truth and say OK.
+func fetcherDeltaRules(c *Check) {
+	sub := newCheck(c.Prop, c.P, c.Tier)
+	sub.depth = c.depth
+	checkC18(sub)
+	n := 0
+	for _, o := range sub.Obls {
+		if o.Rule == "O-C18.4" || (!o.OK && (o.Rule == "anchor" || o.Rule == "engine")) {
+			n++
+			ob := c.add("O-C06.6", "fetcher: "+strings.TrimPrefix(o.Key, o.Rule+"|"), o.Desc, o.OK, o.Where, o.Detail...)
+			ob.Undecided = o.Undecided
+		}
+	}
+	c.Searches += sub.Searches
+	c.States += sub.States
+	c.floor("fetcher delta-CRL rules (shared with C18)", 8, n)
 }
